@@ -309,10 +309,10 @@ def run(res, ctx):
     rng = random.Random(seed * 7919 + 14)
     ctx.update(stats=collections.Counter(), seen=set(), samples=[], corr_diffs=[], oracle_failures=[])
     st = ctx["stats"]
-    reader = check_reader(res, ctx, rng, 1500 if tier == "quick" else 20000)
+    reader = check_reader(res, ctx, rng, 6000 if tier == "quick" else 60000)
 
     jobs = []
-    nyears = 3 if tier == "quick" else 6
+    nyears = 6 if tier == "quick" else 12
     for k in range(nyears):
         nrows = 30 if k == 0 else rng.choice([8, 12, 20, 45])
         truth, y, old, new, today, avail = make_years(ctx, rng, nrows, tier)
@@ -330,7 +330,7 @@ def run(res, ctx):
             r1 = rng.randrange(len(new))
             s1 = len(render(new[:r1]))
             offsets |= set(range(s1, min(total, s1 + len(render(new[r1:r1 + 1])) + 1)))
-            offsets |= {rng.randrange(total + 1) for _ in range(12 if tier == "quick" else 60)}
+            offsets |= {rng.randrange(total + 1) for _ in range(25 if tier == "quick" else 80)}
             offsets = sorted(offsets)
         for off in offsets:
             jobs.append((truth, y, old, new, today, avail, "bytes:%d" % off, pick_lookups(rng, new, off)))
